@@ -44,6 +44,7 @@ class Agg:
             "samples": [],
             "minimise_execs": 0,
             "wall": {},
+            "digest_map": {},
         }
 
     def bump(self, table, key, n=1):
@@ -61,6 +62,7 @@ class Agg:
         self.d["configs"] |= set(o["configs"])
         self.d["violations"].extend(o["violations"])
         self.d["harness"].extend(o["harness"])
+        self.d["digest_map"].update(o.get("digest_map", {}))
         for s in o["samples"]:
             if len(self.d["samples"]) < 6:
                 self.d["samples"].append(s)
@@ -327,6 +329,8 @@ def job_op(job):
         if rr.harness:
             agg.d["harness"].append(f"{key}: {rr.harness}")
             continue
+        if job.get("dump"):
+            agg.d["digest_map"][key] = rr.digest
         _record_faults(agg, rr, scn)
         if rr.ntasks >= 2 and rr.counters.get("switches", 0) >= 1:
             agg.d["digests"].add(rr.digest[:16])
@@ -404,6 +408,8 @@ def job_op(job):
         if rr.harness:
             agg.d["harness"].append(f"{key}: {rr.harness}")
             continue
+        if job.get("dump"):
+            agg.d["digest_map"][key] = rr.digest
         _record_faults(agg, rr, case["base"])
         if rr.counters.get("switches", 0) >= 1:
             agg.d["digests"].add(rr.digest[:16])
@@ -526,10 +532,11 @@ def run_check(args):
                     "budget_A": conf["A"] if "A" in only else 0,
                     "budget_B": conf["B"] if "B" in only else 0,
                     "n_real": conf["n_real"] if "R" in only else 0,
+                    **({"dump": True, "max_runs": args.max_runs, "max_runs_B": args.max_runs, "budget_A": 10**6 if "A" in only else 0, "budget_B": 10**6 if "B" in only else 0} if args.dump else {}),
                 }
             )
     if only & {"C", "T"}:
-        jobs.append({"name": "prange", "kind": "prange", "seed": seed, "budget_C": conf["C"] if "C" in only else 0, "T": conf["T"] if "T" in only else None})
+        jobs.append({"name": "prange", "kind": "prange", "seed": seed, "budget_C": conf["C"] if "C" in only else 0, "T": conf["T"] if "T" in only else None, **({"dump": True, "max_runs": args.max_runs, "budget_C": 10**6 if "C" in only else 0} if args.dump else {})})
     if conf["D"] and "D" in only:
         for name in S.LAZY_KERNELS:
             jobs.append({"name": f"realrace:{name}", "kind": "realrace", "kernel": name, "seed": seed})
@@ -553,7 +560,10 @@ def run_check(args):
         print(f"violation [{payload['tag']}] {payload['violation']['message'][:300]}")
         print(f"VIOLATION property={PROP} replay={path}")
     wall = time.monotonic() - t0
-    if not args.no_evidence:
+    if args.dump:
+        with open(args.dump, "w") as f:
+            json.dump({"digests": d["digest_map"], "violations": [p["tag"] for p in d["violations"]], "harness": harness}, f, sort_keys=True)
+    if not args.no_evidence and not args.dump:
         write_evidence(tier, seed, d, wall, nviol, harness, jobs)
     total = d["runs"]
     print(
